@@ -104,7 +104,8 @@ def run_case(case):
         out['features'].append('sel:' + case['sel'])
         if case.get('cross'):
             out['features'].append('cross-volume')
-    sc = inject.Scenario(case, name, args, stdin=stdin, cwd=cwd)
+    sc = inject.Scenario(case, name, args, stdin=stdin, cwd=cwd,
+                         plan={'random_seed': case.get('seed', 1)})
     w, ref, s0, s1 = sc.execute()
     try:
         if ref.timeout or ref.audit_ok() is False:
@@ -144,11 +145,20 @@ def run_case(case):
                 d.update(kw)
                 out['violations'].append({'mechanism': mech, 'detail': d})
 
-            # (1) no NEW orphan: a payload that had an info still has it
+            # (1) no NEW orphan: a payload that had an info still has it, and
+            # nothing new sits under files/ without an info of its own name
             for e in ents:
                 ik, pk = trashworld.pair_keys(e)
                 if pk in n1 and ik not in n1:
                     viol('payload-stranded-without-info/%s' % cmd, entry=e)
+            old_orphans = set(q for q in n0 if putcheck.is_payload_root(q) and
+                              putcheck.info_for_payload(q) not in n0)
+            for q in n1:
+                if putcheck.is_payload_root(q) and q not in old_orphans and \
+                        putcheck.info_for_payload(q) not in n1 and \
+                        any(q.startswith(t + '/') for t in case['trashes']) and \
+                        not any(q == trashworld.pair_keys(e)[1] for e in ents):
+                    viol('new-payload-without-info-under-files/%s' % cmd, path=q)
             # (2) an entry being restored is complete somewhere
             if cmd == 'restore':
                 for e in ents:
@@ -183,6 +193,13 @@ def run_case(case):
                         bad.append((e['name'], st))
                     if rs == 'intact' and st != 'intact':
                         bad.append((e['name'], 'kept-entry-' + st))
+                n2 = putcheck.norm_sig(a2)
+                left = [q for q in n2 if putcheck.is_payload_root(q) and
+                        q not in old_orphans and
+                        putcheck.info_for_payload(q) not in n2 and
+                        any(q.startswith(t + '/') for t in case['trashes'])]
+                if left:
+                    bad.append(('stranded', left[:4]))
                 if bad:
                     viol('rerun-does-not-complete-the-purge/%s' % cmd, bad=bad,
                          rerun=r2.brief())
